@@ -13,7 +13,7 @@ REQUIRED = ['pscCheck_sound_complete', 'unsupported_coalition_trivial', 'droop_a
             'droop_exceeds', 'hare_exceeds', 'psc_droop', 'psc_check_passes', 'result_shape', 'droop_positive', 'hare_positive', 'full_list_or_refusal',
             'no_infinite_loop', 'shared_rank_coalition_seated']
 UNPROVED = []
-NAME_MODES = ['str', 'int0', 'empty0', 'person']
+NAME_MODES = ['str', 'int0', 'empty0', 'person', 'tuple']
 REQUIRED_COUNTERS = ['coalition_k_ge_1_and_larger', 'refusal', 'hare', 'shared_ranks', 'majority_winner', 'psc_false',
                      'multi_seat', 'hare_quota', 'impl_outcome_checked', 'fraction_weights',
                      # generator audit (harness/GENERATOR_CHECKLIST.md)
@@ -21,12 +21,15 @@ REQUIRED_COUNTERS = ['coalition_k_ge_1_and_larger', 'refusal', 'hare', 'shared_r
                      'decimal_long', 'zero_total', 'shared_only_candidate', 'shared_rank_3', 'shared_rank_4plus', 'four_plus_seats',
                      'exhausted_several_quotas', 'quota_callable', 'quota_constant', 'quota_none', 'transferer_by_name',
                      'retainer_plurality', 'step_-2', 'accept_equal_false', 'mandatory_quota', 'sens_accept_equal',
-                     'sens_mandatory_quota', 'sens_eliminate_step', 'warmup_refusal', 'warmup_larger', 'warmup_other_n', 'warmup_big']
+                     'sens_mandatory_quota', 'sens_eliminate_step', 'warmup_refusal', 'warmup_larger', 'warmup_other_n', 'warmup_big',
+                     'reference_count_compared', 'hare_fractional_quota_close_exclusion', 'hare_fractional_quota_exclusion_tie']
 RULE = ('(audited against harness/GENERATOR_CHECKLIST.md) ranked profiles over 1-6 candidates, 1-10 ballot types, with and without shared ranks, truncated ballots, weights from a '
         'tie-forcing small set / Fractions / integers up to 10^20, all n_seats 1..#candidates, quota droop / hare, Gregory and '
         'Hare(seed) transfer (Hare with the integer droop quota), TransferableVoteSelector.evaluate; every outcome of the '
         'implementation is additionally passed through the verified PSC checker (psc_check), as are synthetic outcomes that '
-        'violate PSC; thorough tier: exhaustive 3-candidate profiles of 3 ballot types (strict, and with shared ranks), weights 1..3. '
+        'violate PSC; directed Hare-quota profiles with a fractional quota, a surplus and a later exclusion decided by less than one '
+        'vote or an exact tie (found with the reference count); every Gregory outcome is compared with an independent exact '
+        'weighted-inclusive-Gregory count written in the harness; thorough tier: exhaustive 3-candidate profiles of 3 ballot types (strict, and with shared ranks), weights 1..3. '
         'Non-trivial = at least two candidates and a result that is not an error; distinct by canonical request.')
 NOT_VERIFIED = ['Decimal (and float) vote counts: the STV classes raise TypeError in every configuration (Fraction(Decimal, ...) in the '
                 'quota functions / Decimal // float without a quota); generated as a pinned refusal, whatever is returned instead is compared',
@@ -90,6 +93,82 @@ def psc_violations(votes, q, elected):
             if got < min(k, len(S)):
                 out.append((sorted(S), sup, int(k), got, shared_inside))
     return out
+
+
+class _Refusal(Exception):
+    pass
+
+
+def reference_gregory(votes, n, q):
+    """Independent exact weighted-inclusive-Gregory count, written from the textbook rules with Fractions (nothing of votelib):
+    the quota q is fixed on all votes cast; when as many candidates continue as seats are open they are all elected; otherwise
+    everybody at or above the quota is elected together, every paper of theirs keeps the share (total - q) / total of its value
+    and moves to the highest rank of its ballot that still has continuing candidates, divided equally among them; if nobody has
+    the quota the single lowest candidate is excluded and its papers move on at full value; an exclusion tie is a refusal.
+    votes: [(ballot, Fraction)], ballot = list of ranks (id | list of ids).  Returns (elected set, diagnostics) or raises _Refusal.
+    diagnostics: 'surplus' (an election left a positive surplus), 'margin' (smallest gap lowest / second lowest at an exclusion
+    that follows such an election)."""
+    cands = profile_cands([[b, w] for b, w in votes])
+    cont = list(cands)
+    piles = {c: {} for c in cands}          # candidate -> {ballot index: value}
+
+    def place(i, w, live):
+        for it in votes[i][0]:
+            members = [c for c in (it if isinstance(it, list) else [it]) if c in live]
+            if members:
+                for c in members:
+                    piles[c][i] = piles[c].get(i, Fraction(0)) + w / len(members)
+                return
+    for i, (b, w) in enumerate(votes):
+        place(i, Fraction(w), cont)
+    elected = []
+    diag = {'surplus': False, 'margin': None}
+    while len(elected) < n:
+        open_seats = n - len(elected)
+        if len(cont) < open_seats:
+            raise _Refusal('fewer candidates than seats')
+        if len(cont) == open_seats:
+            elected += cont
+            break
+        tot = {c: sum(piles[c].values(), Fraction(0)) for c in cont}
+        winners = [c for c in cont if q is not None and tot[c] >= q]
+        if winners:
+            if len(winners) > open_seats:
+                raise _Refusal('more candidates on the quota than seats')
+            moved = []
+            for c in winners:
+                keep = (tot[c] - q) / tot[c]
+                if tot[c] > q:
+                    diag['surplus'] = True
+                moved += [(i, w * keep) for i, w in piles[c].items()]
+                del piles[c]
+            cont = [c for c in cont if c not in winners]
+            elected += winners
+            for i, w in moved:
+                place(i, w, cont)
+        else:
+            low = min(tot.values())
+            lowest = [c for c in cont if tot[c] == low]
+            if diag['surplus']:
+                rest = sorted(tot.values())
+                gap = rest[1] - rest[0]
+                diag['margin'] = gap if diag['margin'] is None else min(diag['margin'], gap)
+            if len(lowest) > 1:
+                raise _Refusal('exclusion tie')
+            c = lowest[0]
+            moved = list(piles[c].items())
+            del piles[c]
+            cont = [x for x in cont if x != c]
+            for i, w in moved:
+                place(i, w, cont)
+    return set(elected), diag
+
+
+def _reference_applies(case):
+    """the configurations for which the statement promises agreement with the exact Gregory count"""
+    return (case['op'] == 'stv_eval_psc' and case['method'] == 'gregory' and case.get('quota') in ('droop', 'hare')
+            and case.get('step', -1) == -1 and not case.get('mandatory') and case.get('accept_equal', True)
+            and case.get('wtype') != 'decimal' and 1 <= case['n'] <= len(profile_cands(case['votes'])))
 
 
 def _first_pref_totals(votes):
@@ -210,6 +289,20 @@ def oracle(case, obs):
         if (None if got is None else Fraction(got)) != want_q:
             out.append(('quota_value', f'quota {got} used, the configured quota is {want_q}'))
             break
+    if _reference_applies(case):
+        # "with fractional (Gregory) transfers it coincides with an independently computed weighted-inclusive-Gregory count,
+        #  unresolved elimination or surplus ties surfacing as an explicit refusal"
+        _tag(case, 'reference_count_compared')
+        try:
+            ref, _ = reference_gregory([(b, Fraction(w)) for b, w in case['votes']], n, want_q)
+            ref_desc = sorted(ref)
+        except _Refusal as r:
+            ref, ref_desc = None, f'refusal ({r})'
+        if isinstance(res, list):
+            if ref is None or set(res) != ref:
+                out.append(('differs_from_exact_gregory_count', f'elected {sorted(res)}, the exact count gives {ref_desc}'))
+        elif isinstance(res, dict) and res.get('err') == 'NotImplementedError' and ref is not None:
+            out.append(('differs_from_exact_gregory_count', f'refused, the exact count elects {ref_desc}'))
     if isinstance(res, dict):
         e = res.get('err')
         if e == 'NotImplementedError':
@@ -420,6 +513,50 @@ def _audit_directed(rng):
         yield from _checked(c)
 
 
+def _close_exclusion_cases(rng, want=10, budget=4000):
+    """Hare quota that is a proper fraction, an election with a surplus, and a later exclusion decided by less than one vote or by
+    an exact tie - found by running the reference count on random small profiles (bounded search), plus two fixed profiles"""
+    fixed = [
+        # 2 seats, quota 51/2: the exact count elects {1, 3}
+        ([[[3], '12'], [[1], '11'], [[2, 3], '9'], [[1, 2, 3], '5'], [[1, 2], '14']], 2, 'hare_fractional_quota_close_exclusion'),
+        # 3 seats, quota 46/3: the exact count refuses on an exclusion tie between 0 and 3
+        ([[[0], '4'], [[1, 0], '11'], [[4, 1], '11'], [[3, 1], '8'], [[4, 0], '12']], 3, 'hare_fractional_quota_exclusion_tie'),
+    ]
+    for votes, n, tag in fixed:
+        perm = list(range(5))
+        rng.shuffle(perm)
+        v2 = [[[perm[c] for c in b], w] for b, w in votes]
+        rng.shuffle(v2)
+        for vv in (votes, v2):
+            yield _case(rng, vv, n, quota='hare', tags=['directed', tag])
+    found = 0
+    for _ in range(budget):
+        if found >= want:
+            break
+        m = rng.choice([4, 5, 5, 6])
+        votes = rand_profile(rng, m, rng.randint(4, 7), 0.0, rng.choice(['mid', 'mid', 'small']), False, empty_p=0)
+        cands = profile_cands(votes)
+        if len(cands) < 4:
+            continue
+        n = rng.randint(2, min(3, len(cands) - 2))
+        V = sum(Fraction(w) for _, w in votes)
+        q = V / n
+        if q.denominator == 1:
+            continue
+        try:
+            _, diag = reference_gregory([(b, Fraction(w)) for b, w in votes], n, q)
+            tie = False
+        except _Refusal as r:
+            # re-run to learn whether a surplus preceded the tie
+            diag, tie = {'surplus': True, 'margin': Fraction(0)}, 'tie' in str(r)
+            if not tie:
+                continue
+        if diag['surplus'] and diag['margin'] is not None and diag['margin'] < 1:
+            found += 1
+            yield _case(rng, votes, n, quota='hare', tags=['directed', 'hare_fractional_quota_exclusion_tie' if tie
+                                                           else 'hare_fractional_quota_close_exclusion'])
+
+
 def _random_case(rng):
     m = rng.choice([2, 3, 3, 4, 4, 5, 6])
     method = 'gregory' if rng.random() < 0.75 else 'hare'
@@ -468,6 +605,7 @@ def generate(rng, tier):
     for _ in range(12 if tier == 'quick' else 60):      # each directed shape at least a dozen times per run (checklist item 9)
         for c in _audit_directed(rng):
             yield c
+    yield from _close_exclusion_cases(rng, want=(30 if tier == 'quick' else 300), budget=(6000 if tier == 'quick' else 60000))
     N = 1800 if tier == "quick" else 30000
     for _ in range(N):
         c = _random_case(rng)
